@@ -553,6 +553,11 @@ def run(tier, seed):
     for t in tables(3, alpha3):
         for c in (1, 2, 3, 4) if tier == "quick" else (1, 2, 3, 4):
             items.append((t, c))
+    # weights are relative: tables whose weights are all tiny, all huge, or non-integer must behave like their scaled twins
+    for scale in (1e-9, 1e9, 0.37):
+        for t in (((1, 2 * scale, 0), (1, 3 * scale, 1)), ((1, 1 * scale, 0), (2, 3 * scale, 0)), ((1, 1 * scale, 1),), ((1, 1 * scale, 0), (1, 0.0, 1), (2, 2 * scale, 0))):
+            for c in (1, 2, 3):
+                items.append((t, c))
     rot = seed % len(items)
     items = items[rot:] + items[:rot]  # seed only rotates the order of work
     chunk = max(1, len(items) // 256)
